@@ -21,7 +21,7 @@ from .c10 import tri_area, tri_volume
 
 KINDS = ["Box", "Sphere", "Cylinder", "Capsule", "Extrusion"]
 OPS = ["set_param", "inplace_param", "set_transform", "inplace_transform", "set_center", "apply_transform", "apply_translation", "apply_scale", "read", "copy", "to_mesh",
-       "bad_attribute", "bad_transform", "cache_clear", "mirror_transform", "set_param_pair", "negate_height"]
+       "bad_attribute", "bad_transform", "cache_clear", "mirror_transform", "set_param_pair", "negate_height", "param_there_and_back"]
 READS = ["vertices", "faces", "volume", "area", "bounds", "face_normals", "moment_inertia", "is_watertight", "center_mass", "triangles"]
 SHELL = [(0, 0), (2, 0), (2.3, 1.2), (1, 2), (-0.2, 1)]
 HOLES = [[(0.6, 0.5), (1.2, 0.5), (1.0, 1.1)], [(1.4, 1.0), (1.8, 1.0), (1.6, 1.3)]]
@@ -258,6 +258,22 @@ class C15(World):
             prim.height = h1
             m["radius"], m["height"] = r1, h1
             return op["mode"]
+        if k == "param_there_and_back":
+            # a parameter doubled, ONE read in that state, and the parameter restored bit for bit: what was computed for the other
+            # state must not be waiting under the identifier of this one
+            if not mutable:
+                raise Inapplicable()
+            name = names[op["which"] % len(names)]
+            old = np.array(getattr(prim, name), dtype=float).copy()
+            setattr(prim, name, old * 2.0)
+            try:
+                getattr(p, ["volume", "area", "bounds", "vertices", "face_normals"][op["i"] % 5])
+            except (KeyboardInterrupt, SystemExit, MemoryError):
+                raise
+            except BaseException:
+                pass
+            setattr(prim, name, old if old.ndim else float(old))
+            return name
         if k == "negate_height":
             if kind != "Extrusion" or not mutable:
                 raise Inapplicable()
